@@ -63,3 +63,91 @@ Theorem C03_pop_removes_only_its_item : forall c s k now r dbk raw,
   key_match dbk (b2z raw) r = true /\ live_at now r = true.
 Proof. exact pop_removes_only. Qed.
 Print Assumptions C03_pop_removes_only_its_item.
+
+From DC Require Import DiskFacts Refs SinvFacts DictFacts IterFacts.
+
+(* ---- the dictionary laws over whole states (every state satisfying the invariant Sinv, which holds for
+        every history from the empty cache: C03_invariant_reachable) ---- *)
+Theorem C03_invariant_reachable : forall c h,
+  (forall x, In x h -> is_push (fst (fst x)) = false) -> Sinv (run c init_st h).
+Proof. exact sinv_run_nopush. Qed.
+Print Assumptions C03_invariant_reachable.
+
+Theorem C03_invariant_step : forall c s o now vols, op_hyp s o = true -> Sinv s -> Sinv (fst (step c s o now vols)).
+Proof. exact sinv_step. Qed.
+Print Assumptions C03_invariant_step.
+
+(* get after set returns the stored value with its expiry and tag -- or that write's own lazy cull removed it *)
+Theorem C03_get_after_set : forall c s k v rd e tag now pg now',
+  Sinv s -> codec_ok (c_codec c) -> key_domain k = true -> shape_ok v rd = true ->
+  snd (op_set c s k v rd e tag now pg) = RBool true ->
+  live_opt now' (expire_at now e) = true ->
+  let s' := fst (op_set c s k v rd e tag now pg) in
+  (snd (op_get c s' k false now') = RVal (FVal (expected v)) (expire_at now e) tag /\
+   snd (op_contains c s' k now') = RBool true) \/
+  (forall rd' now'', snd (op_get c s' k rd' now'') = RDefault /\ snd (op_contains c s' k now'') = RBool false).
+Proof. exact get_after_set_cull. Qed.
+Print Assumptions C03_get_after_set.
+
+(* distinct keys never shadow each other: lookups of k2 are unchanged by set/delete/pop/touch/incr on k1
+   (cull_limit 0: no lazy removal) *)
+Theorem C03_no_shadowing : forall c, c_cull_limit c = 0 -> forall k1 k2, other_key c k1 k2 ->
+  forall s rd' now', Sinv s ->
+  let same := fun s' => snd (op_get c s' k2 rd' now') = snd (op_get c s k2 rd' now') /\
+                        snd (op_contains c s' k2 now') = snd (op_contains c s k2 now') in
+  (forall v rd e tag now pg, same (fst (op_set c s k1 v rd e tag now pg))) /\
+  (forall di now, same (fst (op_delete c s k1 di now))) /\
+  (forall now, same (fst (op_pop c s k1 now))) /\
+  (forall e now, same (fst (op_touch c s k1 e now))) /\
+  (forall d df now pg, same (fst (op_incr c s k1 d df now pg))).
+Proof. exact no_shadowing. Qed.
+Print Assumptions C03_no_shadowing.
+
+Theorem C03_absent_after_delete : forall c s k di now,
+  Sinv s -> snd (op_delete c s k di now) = RBool true ->
+  forall rd now', snd (op_get c (fst (op_delete c s k di now)) k rd now') = RDefault /\
+                  snd (op_contains c (fst (op_delete c s k di now)) k now') = RBool false.
+Proof. exact absent_after_delete. Qed.
+Print Assumptions C03_absent_after_delete.
+
+Theorem C03_absent_after_pop : forall c s k now v e t,
+  Sinv s -> snd (op_pop c s k now) = RVal v e t ->
+  forall rd now', snd (op_get c (fst (op_pop c s k now)) k rd now') = RDefault /\
+                  snd (op_contains c (fst (op_pop c s k now)) k now') = RBool false.
+Proof. exact absent_after_pop. Qed.
+Print Assumptions C03_absent_after_pop.
+
+Theorem C03_add_is_set_when_absent_or_dead : forall c s k v rd e tag now pg dbk raw,
+  put (c_codec c) k = PutOk dbk raw ->
+  match filter (key_match dbk (b2z raw)) (rows s) with [] => True | r0 :: _ => live_at now r0 = false end ->
+  op_add c s k v rd e tag now pg = op_set c s k v rd e tag now pg.
+Proof. exact add_is_set. Qed.
+Print Assumptions C03_add_is_set_when_absent_or_dead.
+
+Theorem C03_incr_after_set : forall c s k z e tag now pg d df now1 pg1 now2,
+  c_cull_limit c = 0 -> Sinv s -> key_domain k = true -> in_int64 z = true -> in_int64 (z + d) = true ->
+  snd (op_set c s k (VInt z) false e tag now pg) = RBool true ->
+  live_opt now1 (expire_at now e) = true -> live_opt now2 (expire_at now e) = true ->
+  let s1 := fst (op_set c s k (VInt z) false e tag now pg) in
+  snd (op_incr c s1 k d df now1 pg1) = RVal (FVal (VInt (z + d))) None SNull /\
+  snd (op_get c (fst (op_incr c s1 k d df now1 pg1)) k false now2) = RVal (FVal (VInt (z + d))) (expire_at now e) tag.
+Proof. exact set_incr_get. Qed.
+Print Assumptions C03_incr_after_set.
+
+(* iteration lists every key in insertion order, for every table size (all 100-row pages), reversed
+   iteration the reverse, and len is their number *)
+Theorem C03_iteration_is_insertion_order : forall s, Sinv s ->
+  snd (op_iter s true) = RKeys (keys_of (rows s)) /\ snd (op_iter s false) = RKeys (rev (keys_of (rows s))) /\
+  snd (op_len s) = RInt (Z.of_nat (length (keys_of (rows s)))).
+Proof. exact iter_sinv. Qed.
+Print Assumptions C03_iteration_is_insertion_order.
+
+Theorem C03_set_keeps_or_appends : forall c, c_cull_limit c = 0 -> forall s k v rd e tag now pg dbk raw,
+  put (c_codec c) k = PutOk dbk raw -> snd (op_set c s k v rd e tag now pg) = RBool true ->
+  keys_of (rows (fst (op_set c s k v rd e tag now pg))) =
+  match filter (key_match dbk (b2z raw)) (rows s) with
+  | [] => keys_of (rows s) ++ [(dbk, raw)]
+  | _ :: _ => keys_of (rows s)
+  end.
+Proof. exact set_position. Qed.
+Print Assumptions C03_set_keeps_or_appends.
